@@ -3,7 +3,9 @@
    no_common_link n p q = forall l, In l (links n p) -> ~ In l (links n q)
    Route                = specification of C11 (Proofs/Route.v)
    The pruning algorithm of compute_path_dsjctn is not modelled: what it returns is judged by disjoint_ok /
-   route_ok, its DisjunctionError by exists_disjoint_pair (single pair, candidate paths of at most `cutoff` links). *)
+   route_ok, its DisjunctionError by exists_disjoint_pair (single pair, candidate paths of at most `cutoff` links).
+   Findings K1 (step 4 on the short list), K2, K3 (aggregation) of the pinned tree are repaired in /repo; their
+   witnesses are kept as corpus cases and as the regression examples below. *)
 From Verif Require Import Prelude Model.Route Proofs.Route Model.Disjoint Proofs.Disjoint.
 Open Scope Z_scope.
 
@@ -66,45 +68,25 @@ Theorem c12_covered_ok_reflects :
 Proof. exact covered_ok_spec. Qed.
 Print Assumptions c12_covered_ok_reflects.
 
-(* requests_aggregation leaves ids and groups alone when no two requests agree on the compared attributes ... *)
+(* requests_aggregation (ids and groups; as repaired by ae92a5de, 1cefb39c): groups_preserved.
+   For every well-formed input -- Inv of the initial state: request ids are non-empty and share no atom, groups only
+   name existing requests, each at most once (Record Inv in Proofs/Disjoint.v) -- every pair declared disjoint is
+   still declared for the requests that now carry it, and no group names a request that no longer exists *)
+Theorem c12_aggregate_preserves :
+  forall rqs gs,
+  Inv (mkS (map a_id rqs) (seq 0 (length rqs)) gs) ->
+  let st := aggregate rqs gs in
+  (forall a b, Covered gs a b -> Covered (s_groups st) a b) /\
+  no_stale (final_ids st) (s_groups st) = true.
+Proof. exact aggregate_preserves. Qed.
+Print Assumptions c12_aggregate_preserves.
+
+(* ... and requests that differ in a compared attribute are never merged: ids and groups come back untouched *)
 Theorem c12_aggregate_distinct_untouched :
   forall rqs gs, NoDup (map a_sig rqs) ->
   aggregate rqs gs = mkS (map a_id rqs) (seq 0 (length rqs)) gs.
 Proof. exact aggregate_distinct_untouched. Qed.
 Print Assumptions c12_aggregate_distinct_untouched.
-
-(* ... but in general groups are NOT preserved by the faithful model (findings K2, K3): *)
-Theorem c12_aggregation_drops_pair_refuted :
-  exists rqs gs declared,
-    covered_ok declared gs = true /\ covered_ok declared (s_groups (aggregate rqs gs)) = false.
-Proof. exact aggregation_drops_pair_refuted. Qed.
-Print Assumptions c12_aggregation_drops_pair_refuted.
-
-Theorem c12_aggregation_stale_refuted :
-  exists rqs gs,
-    no_stale (map a_id rqs) gs = true /\
-    no_stale (final_ids (aggregate rqs gs)) (s_groups (aggregate rqs gs)) = false.
-Proof. exact aggregation_stale_refuted. Qed.
-Print Assumptions c12_aggregation_stale_refuted.
-
-(* ... and they ARE preserved by the proposed repair (same_disj compares group shapes, no skipped deletion):
-   Inv st0 = well-formed input: request ids are non-empty and share no atom, groups only name existing requests,
-   each at most once (Proofs/Disjoint.v, Record Inv) *)
-Theorem c12_aggregate_fixed_preserves :
-  forall rqs gs,
-  Inv (mkS (map a_id rqs) (seq 0 (length rqs)) gs) ->
-  let st := aggregate_fixed rqs gs in
-  (forall a b, Covered gs a b -> Covered (s_groups st) a b) /\
-  no_stale (final_ids st) (s_groups st) = true.
-Proof. exact aggregate_fixed_preserves. Qed.
-Print Assumptions c12_aggregate_fixed_preserves.
-
-(* K1: the include test of step 4 is made on the short list, where a line element that is not right after a ROADM
-   never appears, although the path itself crosses it *)
-Theorem c12_shortlist_ispart_refuted :
-  exists n p inc, route_ok (ngraph n) 0 5 inc p = true /\ ispart inc (short_list n p) = false.
-Proof. exact shortlist_ispart_refuted. Qed.
-Print Assumptions c12_shortlist_ispart_refuted.
 
 (* ---------- non-vacuity ---------- *)
 (* triangle A B C (f11_net has no B-C line): A->C direct and A->B share nothing; A->C and C->A share the link *)
@@ -130,11 +112,12 @@ Example c12_ex_aggregate :
   final_ids st = [[1; 0]; [2]] /\ s_groups st = [mkG 0 [[2]; [1; 0]]] /\
   covered_ok [[0; 2]; [1; 2]] (s_groups st) = true.
 Proof. vm_compute. repeat split. Qed.
-Example c12_ex_fixed_wf : Inv (mkS (map a_id k2_rqs) (seq 0 (length k2_rqs)) k2_groups).
+Example c12_ex_wf : Inv (mkS (map a_id k2_rqs) (seq 0 (length k2_rqs)) k2_groups).
 Proof. exact k2_inv. Qed.
-Example c12_ex_fixed_keeps :
-  covered_ok k2_declared (s_groups (aggregate_fixed k2_rqs k2_groups)) = true /\
-  no_stale (final_ids (aggregate_fixed k3_rqs k3_groups)) (s_groups (aggregate_fixed k3_rqs k3_groups)) = true /\
-  (let st := aggregate_fixed [mkA [0] 1 true; mkA [1] 1 true; mkA [2] 5 true] [mkG 0 [[0]; [2]]; mkG 1 [[1]; [2]]] in
-   final_ids st = [[1; 0]; [2]] /\ s_groups st = [mkG 0 [[2]; [1; 0]]]).
+(* regressions K2 / K3: twins whose groups differ in shape are no longer merged, nothing is lost, nothing is stale *)
+Example c12_ex_regressions :
+  covered_ok k2_declared (s_groups (aggregate k2_rqs k2_groups)) = true /\
+  final_ids (aggregate k2_rqs k2_groups) = [[0]; [1]; [2]; [3]] /\
+  no_stale (final_ids (aggregate k3_rqs k3_groups)) (s_groups (aggregate k3_rqs k3_groups)) = true /\
+  s_groups (aggregate k3_rqs k3_groups) = k3_groups.
 Proof. vm_compute. repeat split. Qed.
